@@ -122,6 +122,9 @@ impl MT942 {
         // Parse optional information to account owner
         let field_86 = parser.parse_optional_field::<Field86>("86")?;
 
+        // Verify all content is consumed
+        verify_parser_complete(&parser)?;
+
         Ok(MT942 {
             field_20,
             field_21,
